@@ -12,6 +12,8 @@
 
 namespace vsim {
 
+void cli_prepare();      // ops_cli.cc: scratch directory of the command-line steps, computed outside the simulated heap
+
 const char* const counter_names[] = {
 #define X(n) #n,
 	VSIM_COUNTERS(X)
@@ -283,6 +285,7 @@ RunResult run_in_child(const Plan* plan, const std::string& profile, const std::
 		c.passthrough = plan->env.passthrough != 0 || getenv("VSIM_PASSTHROUGH") != nullptr;    // valgrind tier: real malloc, ticks still counted
 		if (const char* b = getenv("VSIM_TICK_BUDGET")) c.step_tick_budget = strtoull(b, nullptr, 10);
 		simheap::set_budget_handler(budget_exceeded);
+		cli_prepare();
 		simheap::begin_run(c);
 		execute_plan(*plan);
 		finish_child(1);
